@@ -105,6 +105,8 @@ type ircNet struct {
 	Name      [c13NUsers]uint8 // index into the user's nick pool
 	Known     uint8            // others whose ident@host the client was told (JOIN source or WHO reply)
 	KnownReal uint8            // others whose real name the client was told (WHO reply)
+	Alt       uint8            // users whose host is currently the cloaked one (it changes silently: services cloaks)
+	RAlt      uint8            // of the known users: those whose host the client was last told as the cloaked one
 }
 
 func newIrcNet() *ircNet { return &ircNet{Name: [c13NUsers]uint8{0, 0, 1}} }
@@ -120,7 +122,15 @@ func (n *ircNet) Nick(u int) string {
 }
 
 func (n *ircNet) src(u int) string {
-	return n.Nick(u) + "!" + c13Users[u].Ident + "@" + c13Users[u].Host
+	return n.Nick(u) + "!" + c13Users[u].Ident + "@" + n.host(u, n.Alt)
+}
+
+// host is user u's host name under the given cloak mask.
+func (n *ircNet) host(u int, mask uint8) string {
+	if mask&(1<<u) != 0 {
+		return "cloaked." + c13Users[u].Host
+	}
+	return c13Users[u].Host
 }
 
 // userByNick returns the user currently using nick, or -1.
@@ -174,6 +184,7 @@ const (
 	evNick         // U changes nick (others: to the free pool name; me: to the other one)
 	evTopic        // topic of C changes to the next in the cycle
 	evMode         // mode change on C: X = which, U = target member for o/v
+	evCloak        // U's host changes between its plain and its cloaked form; nobody is told
 )
 
 const (
@@ -204,6 +215,8 @@ func (e c13Ev) String() string {
 		return u + " quits"
 	case evNick:
 		return u + " renames"
+	case evCloak:
+		return u + "'s host changes silently"
 	case evTopic:
 		return "topic change on " + c
 	case evMode:
@@ -253,6 +266,13 @@ func (n *ircNet) Events() []c13Ev {
 	}
 	for u := 0; u < c13NUsers; u++ {
 		evs = append(evs, c13Ev{evNick, uint8(u), 0, 0})
+	}
+	// only user A changes host (one more bit of state is enough to have a second WHO reply differ from the first)
+	for c := range n.Ch {
+		if n.Ch[c].On&2 != 0 {
+			evs = append(evs, c13Ev{evCloak, 1, 0, 0})
+			break
+		}
 	}
 	for c := 0; c < c13NChans; c++ {
 		ch := &n.Ch[c]
@@ -323,6 +343,7 @@ func (n *ircNet) normalise() {
 	}
 	sh := n.sharing()
 	n.Known &= sh
+	n.RAlt &= n.Known
 	n.KnownReal &= sh
 }
 
@@ -364,6 +385,11 @@ func (n *ircNet) Apply(e c13Ev) []string {
 				fmt.Sprintf(":%s 366 %s %s :End of NAMES list", c13Srv, me, cn))
 		} else if ch.On&c13MeBit != 0 {
 			lines = append(lines, ":"+n.src(u)+" JOIN "+c13JoinArg(cn))
+			if n.Known&bit == 0 {
+				// a nick the client did not know: its details are taken from the JOIN source (for a known one a JOIN
+				// changes nothing, only a WHO reply does)
+				n.RAlt = n.RAlt&^bit | n.Alt&bit
+			}
 			n.Known |= bit // the JOIN source carries ident@host
 		}
 	case evPart:
@@ -401,6 +427,8 @@ func (n *ircNet) Apply(e c13Ev) []string {
 				lines = append(lines, ":"+old+" NICK "+n.Nick(u))
 			}
 		}
+	case evCloak:
+		n.Alt ^= bit
 	case evTopic:
 		ch := &n.Ch[c]
 		ch.Topic = (ch.Topic + 1) % uint8(len(c13Topics))
@@ -525,8 +553,9 @@ func (n *ircNet) Answer(req string) []string {
 		var out []string
 		row := func(u int, cn string, flags string) {
 			out = append(out, fmt.Sprintf(":%s 352 %s %s %s %s %s %s H%s :0 %s", c13Srv, me, cn,
-				c13Users[u].Ident, c13Users[u].Host, c13Srv, n.Nick(u), flags, c13Users[u].Real))
+				c13Users[u].Ident, n.host(u, n.Alt), c13Srv, n.Nick(u), flags, c13Users[u].Real))
 			if u != 0 && n.sharing()&(1<<u) != 0 {
+				n.RAlt = n.RAlt&^(1<<u) | n.Alt&(1<<u)
 				n.Known |= 1 << u
 				n.KnownReal |= 1 << u
 			}
@@ -592,7 +621,7 @@ func (n *ircNet) View() *c13View {
 		if sh&b == 0 {
 			continue
 		}
-		v.Users[n.Nick(u)] = &c13UserView{Nick: n.Nick(u), Ident: c13Users[u].Ident, Host: c13Users[u].Host, Real: c13Users[u].Real,
+		v.Users[n.Nick(u)] = &c13UserView{Nick: n.Nick(u), Ident: c13Users[u].Ident, Host: n.host(u, n.RAlt), Real: c13Users[u].Real,
 			Known: n.Known&b != 0, KnownReal: n.KnownReal&b != 0}
 	}
 	for c := range n.Ch {
